@@ -295,21 +295,24 @@ theorem T_C18_view_order :
     ((dirsOf ⟨0, 0, 0⟩ ⟨0, -10, 0⟩ ⟨0, 0, 10⟩).all.map (fun x => (x.1, signV x.2))) = CBV.Gen.c18ViewOrder := by
   decide +kernel
 
-/-! ### known finding: the result need not be a relabelling of the block
+/-! ### repaired: two halves of different sides are not joined into a face
 
-The full statement one would like —
-  `reorient pts sim obs ceil = .ok out → indicesIn pts out ∈ sym48`  (for `pts` a validly numbered convex block) —
-is false for the code and for its model: with slightly warped sides seen from between two sides the best aligned
-triangles of two different sides are joined.  What is proved instead is `T_C18_same_points` (a permutation) together
-with the counterexample below, which is replayed on the implementation at every run
-(corpus/c18/reorient-block-restructured.json). -/
+Before the repair the two best aligned hull triangles of two *different* warped sides could be joined into a "quad"
+across a block edge; when the six quads happened to be consistent the result was a permutation of the points that is
+none of the 48 relabellings of the block.  The code (and the model) now refuse two triangles whose unit normals are
+more than 60° apart. -/
 
-/-- a right-handed, convex (closed convex hull of 12 triangles over all eight points) block and a viewpoint for
-    which the model — like the implementation — returns a numbering that is none of the 48 relabellings -/
-theorem T_C18_relabelling_counterexample :
-    rhOk (Hex.ofList cxPts) = true ∧ hullProblems cxPts cxHull 0 = [] ∧
-    (reorient cxPts cxHull ⟨-53 / 64, -33 / 16, -71 / 16⟩ ⟨169 / 64, -45 / 32, -193 / 32⟩).toOption.map (indicesIn cxPts)
-      = some [4, 0, 7, 6, 5, 1, 3, 2] ∧ [4, 0, 7, 6, 5, 1, 3, 2] ∉ sym48 := by
+/-- the two halves of every quad the model builds are at most 60° apart -/
+theorem T_C18_face_halves (t0 t1 : Tri) (q : List V3) (h : mkQuad t0 t1 = .ok q) : ¬ tooSteep t0 t1 := by
+  unfold mkQuad at h
+  split at h
+  · cases h
+  · assumption
+
+/-- the failing input of the unrepaired tree (corpus/c18/reorient-block-restructured.json: a right-handed block with a
+    closed convex hull of 12 triangles that was returned as `[4,0,7,6,5,1,3,2]`, not a relabelling) is now rejected -/
+example : rhOk (Hex.ofList cxPts) = true ∧ hullProblems cxPts cxHull 0 = [] ∧ [4, 0, 7, 6, 5, 1, 3, 2] ∉ sym48 ∧
+    reorient cxPts cxHull ⟨-53 / 64, -33 / 16, -71 / 16⟩ ⟨169 / 64, -45 / 32, -193 / 32⟩ = .error .degenerate := by
   decide +kernel
 
 /-! ### the 48 relabellings and the canonical numbering -/
